@@ -659,10 +659,14 @@ func (w *c04World) tamper(s *c04State) string {
 		}
 		if c.Bool(1, 2) {
 			tx.Inputs[j].PreviousTxOutIndex ^= 1 << uint(c.Choose(32))
-		} else {
+		} else if c.Bool(1, 2) {
 			id := append([]byte(nil), tx.Inputs[j].PreviousTxID()...)
 			id[c.Choose(32)] ^= 1 << uint(c.Choose(8))
 			_ = tx.Inputs[j].PreviousTxIDAdd(id)
+		} else {
+			// edited in place through the slice the getter hands out
+			id := tx.Inputs[j].PreviousTxID()
+			id[c.Choose(32)] ^= 1 << uint(c.Choose(8))
 		}
 		return fmt.Sprintf("Tamper(outpoint of input %d)", j)
 	case 3:
@@ -715,6 +719,14 @@ func (w *c04World) tamperPresentation(s *c04State) string {
 	c.Count("fault.tamper_presentation", 1)
 	if c.Bool(1, 2) {
 		v := u.value ^ (1 << uint(c.Choose(40)))
+		switch c.Pick(4, 2, 1, 1) {
+		case 1:
+			v = 0 // "no amount given"
+		case 2:
+			v = u.value + 1
+		case 3:
+			v = ^uint64(0)
+		}
 		want := stillValid && bytes.Equal(models.Projection(m, i, md.flag, v, u.script), md.proj)
 		got, why := s.verify(s.verifierCopy(), i, v, u.script, md.flag)
 		if got != want {
